@@ -35,6 +35,35 @@ NOTES = {
     "C19-c": "first miss: lock identified by path, two holders -> lock attached to the opened file + three holders (H4c)",
     "C19-d": "first miss: write seam ignored exclusive-create -> `x` / `a` modes modelled; H0's stale temporary copy has the loader's pid",
     "C20-d": "first miss: observers called once on a fresh manager -> E2 observer histories",
+    # third wave
+    "C01-e": "first miss: one interpreter, one hash seed -> `core.hash_sweep`: the reserved templates under 9 (thorough 25) PYTHONHASHSEED values, plus Delay + Event-context templates",
+    "C01-f": "first miss: bad units were `zzq` / a foreign class -> unit texts from the C11 grammar oracle (plural of a symbol, unit before the number, word between)",
+    "C03-e": "first miss: no generated node with both a `#` child and named children -> added to the generated schema",
+    "C03-f": "first miss: bulk cells were distinct after case folding -> cells differing only in the case of a value / extension / unknown tag",
+    "C04-e": "first miss: reserved family had no Delay + non-temporal pair -> `[DLY, EC, [R]]`, `[DUR, EC, [R]]` entries",
+    "C05-e": "first miss: every state was loaded from merged XML -> second generation: saves of the schemas reloaded from unmerged saves",
+    "C05-f": "first miss: TSV saves went to a fresh directory -> re-save in the other mode into the same directory",
+    "C06-f": "first miss: histories compared only the final `series_a` -> every call's answer against a fresh object's, `assemble(skip_curly_braces=True)` in the alphabet, handed-out frames kept",
+    "C07-e": "first miss: no sheet without a header row -> F8 (SpreadsheetInput, numbered columns)",
+    "C08-e": "first miss: brace contents were ASCII -> brace texts with non-ASCII letters / digits, blanks, empty",
+    "C08-f": "first miss: every sidecar validated once -> E2 histories on one Sidecar object with in-place edits (same top-level keys)",
+    "C09-e": "first miss: unprefixed schema only -> the same histories under `ts:8.3.0` with every tag prefixed",
+    "C10-f": "first miss: a fresh validator per file -> sequences of files through one SpreadsheetValidator",
+    "C11-f": "first miss: prefix-type units only were tried before the number -> every plain unit before the number",
+    "C12-f": "first miss: planted `$` never followed a colon in the same tag -> `Item/ab:cd$`, `Item/Started-12:30:15/x$y`, `Foo:bar$`",
+    "C13-e": "first miss: six hand-picked refusals -> every ordered pair of bundled schemas under one prefix, clash derived from their XML",
+    "C14-e": "first miss: foreign name `otherlib` only -> fragments and variants of the library's own name",
+    "C15-e": "first miss: annotations in short form only -> long-form and case-changed renderings must give the same answers",
+    "C15-f": "first miss: group-scoped conjunctions judged by laws only -> references for `{a && b}` (same level) and `[a && b]` (descendants); both agree with the library on 4.2 M cases",
+    "C16-e": "first miss: events files only below `sub-XX/` -> an events file in the dataset root",
+    "C16-f": "first miss: CLI run without options -> `--check-for-warnings`, `-f json`, `-f json_pp`",
+    "C17-f": "first miss: faults of the JSON-schema stage only -> data-level faults at every position of lists holding a sound operation of the same type",
+    "C18-e": "first miss: remodel only with a backup of every file -> partial backups (run must be refused, refused run leaves allowed contents only)",
+    "C18-f": "first miss: lower-case directory names -> `sub-02/EEG/`",
+    "C19-e": "first miss: the lock model ignored `fail_when_locked` -> modelled (conformance trace 9)",
+    "C19-f": "first miss: the network seam replaced `url_to_file` itself -> H7: the real `url_to_file` over a fake response cut after k bytes",
+    "C20-e": "first miss: no Inset items -> `inset` item (needs an open process; stays in the remaining annotation)",
+    "C20-f": "first miss: Onset with content group only in the thorough menu -> in the quick menu",
 }
 
 
